@@ -565,6 +565,28 @@ func grammarXSSStream(r *rng, tier string) *inputSet {
 	s := newInputSet()
 	var core []string
 	xssCore(func(stream, v string) { s.add("core-"+stream, v); core = append(core, v) })
+	// further break-out prefixes of the attribute position (tested, not part of the proved
+	// core): the closing quote at offset 0, the attribute directly behind the quote, other
+	// separators behind the quote or the tag name
+	gTags, gBlacks, gEvents := grammarLists()
+	_ = gTags
+	for _, p := range []string{"'", "\"", "`", "x'", "x\"", "x`", "' ", "'/", "x'/", "\"/", "'\t", "x\n", "x/", "<a/", "<a\t", "<a\n", "<a\x00 ", "x' \x00", "'\x00"} {
+		for _, e := range gEvents {
+			if e.Type == 1 {
+				s.add("beyond-core-breakouts", p+"ON"+e.Name+"=x")
+			}
+		}
+		for _, a := range gBlacks {
+			switch a.Type {
+			case 2:
+				s.add("beyond-core-breakouts", p+a.Name+"=JAVASCRIPT:x")
+			case 1, 3:
+				s.add("beyond-core-breakouts", p+a.Name+"=x")
+			case 4:
+				s.add("beyond-core-breakouts", p+a.Name+"=ONCLICK")
+			}
+		}
+	}
 	n := 20000
 	if tier == "thorough" {
 		n = 500000
